@@ -241,9 +241,14 @@ def case_compose_iterate(log, order):
         bet, bs, roots = sym_rge(order) if order < 4 else sym_rge(order, "complex")
         gs = singlet_gammas(order, "general")
         o = (order, 0)
-        E21 = sg.eko_iterate(gs, a2, a1, bet, o, 1)
-        E10 = sg.eko_iterate(gs, a1, a0, bet, o, 1)
-        E20 = sg.eko_iterate(gs, a2, a0, bet, o, 1)
+        saved = sg.ad
+        sg.ad = AdSeries(saved)  # exp_matrix_2D by its contract (C23) as a power series in the step
+        try:
+            E21 = sg.eko_iterate(gs, a2, a1, bet, o, 1)
+            E10 = sg.eko_iterate(gs, a1, a0, bet, o, 1)
+            E20 = sg.eko_iterate(gs, a2, a0, bet, o, 1)
+        finally:
+            sg.ad = saved
         D = E21 @ E10 - E20
         for i in range(2):
             for j in range(2):
